@@ -8,7 +8,7 @@ CHECKS = {
  "C01": dict(
   technique="source-level symbolic execution of the nom grammar (syn dump -> PEG with nom semantics -> QF_BV) + SMT (z3), one query per exact input length; S-kernel execution of Context::entity; counterexamples replayed on the real build",
   category="model_checking",
-  text="For every string of <= N Unicode scalar values (N=14 quick / 17 thorough) and every instantiation of the template families (DTD declarations, XML declaration, attributes, PI/comment/CDATA) z3 decides: the strict reference language (XML 1.0 5e + QName syntax, supported profile) is contained in {x : xml_parser::document consumes x and the info-level reference checks pass}. The keyword captures of the grammar (12 keyword -> variant sites, standalone = 'yes', decimal / hexadecimal radix of character references) are compared with the productions. Which declaration a reference denotes: info Context::entity is executed by the S-kernel over <= 3 (quick) / 4 (thorough) declarations with symbolic 1-2 character names and a symbolic queried name - the first declaration with that name, else the predefined entity with its replacement text, else an error. The encoding is regenerated from /repo on each run; any model is replayed through XmlDocument::from_raw before it is reported.",
+  text="For every string of <= N Unicode scalar values (N=14 quick / 17 thorough) and every instantiation of the template families (DTD declarations, XML declaration, attributes, PI/comment/CDATA) z3 decides: the strict reference language (XML 1.0 5e + QName syntax, supported profile) is contained in {x : xml_parser::document consumes x and the info-level reference checks pass}. The keyword captures of the grammar (12 keyword -> variant sites, standalone = 'yes', decimal / hexadecimal radix of character references) are compared with the productions. Element content: info XmlElement::node is executed by the S-kernel over a symbolic parse result (head text of 0-2 and tails of 0-1 symbolic characters, white space included, 0-2 cells with an element / comment / CDATA / PI / character reference child): the children built are exactly the non-empty text runs and the child items, in order, characters unchanged. Which declaration a reference denotes: info Context::entity is executed by the S-kernel over <= 3 (quick) / 4 (thorough) declarations with symbolic 1-2 character names and a symbolic queried name - the first declaration with that name, else the predefined entity with its replacement text, else an error. The encoding is regenerated from /repo on each run; any model is replayed through XmlDocument::from_raw before it is reported.",
   note="Bounded: nothing is claimed for longer documents outside the templates. Grammar layer plus the info-level reference checks (character references, entity names incl. the scope of ATTLIST defaults, read structurally from XmlDocumentTypeDeclaration::node) and Context::entity: the rest of item construction, entity expansion into text, DOM views and the captures->infoset mapping are outside. Trusted: nom combinator models (validated against the real parser on the corpus + random mutations on every run), reference grammar (self-tested on its corpus, expat second opinion on ASCII witnesses).",
   design="3/C01"),
  "C02": dict(
